@@ -294,5 +294,5 @@ MANIFEST = {
             "reference line functions are the affine lines (optimized ones: C13), the flag reaches the loop unchanged and "
             "suppresses exactly the power, and reference/optimized loops make the same steps (BLS) or end at the same point "
             "(BN). Numerical equality of the signed-digit BN loop after exponentiation is a theorem, not decided.",
-    "note": "Layered on C13/C05/C08. Oracle: checker's F_p^12 arithmetic and parameter polynomials.",
+    "note": "Every call inside final_exponentiate that takes the formal power in one argument is tried as x -> lambda*x^(p^k) on symbolic coefficients (Frobenius tables, conjugation); exponents are compared modulo p^12-1. Layered on C13/C05/C08. Oracle: checker's F_p^12 arithmetic and parameter polynomials.",
 }
